@@ -25,6 +25,7 @@
 #include <sstream>
 #include <charconv>
 #include <iomanip>
+#include <limits>
 
 namespace mfuse
 {
@@ -844,6 +845,7 @@ void ScriptEmitter::EmitCommandMethod(sval_t listener, const prchar_t* commandNa
     else
     {
         const uint32_t iParamCount = EmitParameterList(parameter_list);
+        CheckOperandCount(iParamCount, std::numeric_limits<op_parmNum_t>::max(), sourceLoc);
 
         EmitValue(listener);
 
@@ -902,6 +904,7 @@ void ScriptEmitter::EmitCommandScript(const prchar_t* commandName, sval_t parame
     else
     {
         const uint32_t iParamCount = EmitParameterList(parameter_list);
+        CheckOperandCount(iParamCount, std::numeric_limits<op_parmNum_t>::max(), sourceLoc);
 
         if (iParamCount > 5)
         {
@@ -961,8 +964,21 @@ void ScriptEmitter::EmitConstArray(sval_t lhs, sval_t rhs, sourceLocation_t sour
     EmitConstArrayOpcode(iCount, sourceLoc);
 }
 
+void ScriptEmitter::CheckOperandCount(uint32_t iCount, uint32_t iMaxCount, sourceLocation_t sourceLoc)
+{
+    // the count operand of the instruction is narrower than this counter: a longer list
+    // would run with its count truncated and leave operands on the stack
+    if (iCount > iMaxCount)
+    {
+        CompileError(sourceLoc, "too many parameters: %u (the maximum is %u)", iCount, iMaxCount);
+        throw CompileException::TooManyParameters(sourceLoc);
+    }
+}
+
 void ScriptEmitter::EmitConstArrayOpcode(uint32_t iCount, sourceLocation_t sourceLoc)
 {
+    CheckOperandCount(iCount, std::numeric_limits<op_arrayParmNum_t>::max(), sourceLoc);
+
     /*if( iCount > 255 )
     {
         CompileError( -1, "Max const array parameters exceeded") ;
@@ -1145,6 +1161,8 @@ void ScriptEmitter::EmitFunction(uint32_t iParamCount, const prchar_t* functionN
 
         p++;
     }
+
+    CheckOperandCount(iParamCount, std::numeric_limits<op_parmNum_t>::max(), sourceLoc);
 
     EmitOpcodeWithStack(OP_FUNC, -(int32_t)iParamCount, sourceLoc);
 
@@ -1422,6 +1440,8 @@ void ScriptEmitter::EmitMakeArray(sval_t val, sourceLocation_t sourceLoc)
 
 void ScriptEmitter::EmitMethodExpression(uint32_t iParamCount, eventNum_t eventnum, sourceLocation_t sourceLoc)
 {
+    CheckOperandCount(iParamCount, std::numeric_limits<op_parmNum_t>::max(), sourceLoc);
+
     if (iParamCount > 5)
     {
         EmitOpcodeWithStack(OP_EXEC_METHOD_COUNT1, -(int32_t)iParamCount, sourceLoc);
